@@ -56,6 +56,11 @@ pub fn shapes() -> Vec<Shape> {
         Shape { name: "manifestTomlEx-inline-tables-nested", class: Class::Finite, make: |d| format!("{}std.length(std.manifestTomlEx({{r: [0, v]}}, \" \"))", nest_obj(d)) },
         Shape { name: "manifestTomlEx-inline-arrays-nested", class: Class::Finite, make: |d| format!("{}std.length(std.manifestTomlEx({{r: v}}, \" \"))", nest_arr(d)) },
         Shape { name: "manifestYamlDoc-arrays-nested", class: Class::Finite, make: |d| format!("{}std.length(std.manifestYamlDoc(v))", nest_arr(d)) },
+        Shape { name: "thunk-chain-map-of-builtin", class: Class::Finite, make: |d| format!("std.foldl(function(acc, i) std.map(std.floor, acc), std.range(1, {d}), [1.5])[0]") },
+        Shape { name: "thunk-chain-map-of-function", class: Class::Finite, make: |d| format!("std.foldl(function(acc, i) std.map(function(x) x + 1, acc), std.range(1, {d}), [0])[0]") },
+        Shape { name: "thunk-chain-mapWithKey-of-builtin", class: Class::Finite, make: |d| format!("std.foldl(function(acc, i) std.mapWithKey(std.format, acc), std.range(1, {d}), {{\"%s\": 1}})[\"%s\"]") },
+        Shape { name: "thunk-chain-mapWithIndex", class: Class::Finite, make: |d| format!("std.foldl(function(acc, i) std.mapWithIndex(std.atan2, acc), std.range(1, {d}), [1])[0]") },
+        Shape { name: "thunk-chain-makeArray", class: Class::Finite, make: |d| format!("std.foldl(function(acc, i) std.makeArray(1, function(j) acc[j] + 1), std.range(1, {d}), [0])[0]") },
         Shape { name: "manifestPython-nested", class: Class::Finite, make: |d| format!("{}std.length(std.manifestPython(v))", nest_arr(d)) },
         Shape { name: "prune-nested", class: Class::Finite, make: |d| format!("{}std.length(std.toString(std.prune([v])))", nest_arr(d)) },
         Shape { name: "flattenDeepArray-nested", class: Class::Finite, make: |d| format!("{}std.flattenDeepArray([v, 1])", nest_arr(d)) },
@@ -506,6 +511,28 @@ pub fn run(ctx: &Ctx) -> i32 {
     }
     total.extra.insert("endless_descent_probes".into(), json!(ed.len()));
     total.merge(r);
+    // redundant parentheses around a tail-position `tailstrict` call change nothing: same value,
+    // same smallest sufficient frame limit (C15: a text means what its parenthesised form means)
+    for (name, plain, paren) in [
+        ("else-branch", "local f(n, acc) = if n == 0 then acc else f(n - 1, acc + 1) tailstrict; f(D, 0)", "local f(n, acc) = if n == 0 then acc else (f(n - 1, acc + 1) tailstrict); f(D, 0)"),
+        ("whole-body", "local f(n, acc) = if n == 0 then acc else f(n - 1, acc + 1) tailstrict; f(D, 0)", "local f(n, acc) = (if n == 0 then acc else f(n - 1, acc + 1) tailstrict); f(D, 0)"),
+        ("local-body", "local f(n, acc) = local m = n - 1; if n == 0 then acc else f(m, acc + 1) tailstrict; f(D, 0)", "local f(n, acc) = local m = n - 1; (if n == 0 then acc else ((f(m, acc + 1) tailstrict))); f(D, 0)"),
+        ("method", "{ f(n, acc):: if n == 0 then acc else self.f(n - 1, acc + 1) tailstrict }.f(D, 0)", "{ f(n, acc):: (if n == 0 then acc else (self.f(n - 1, acc + 1) tailstrict)) }.f(D, 0)"),
+    ] {
+        for d in [5usize, 40, 300] {
+            let threshold = |src: &str| (0..60usize).find(|&s| matches!(run_small_stack(src.replace('D', &d.to_string()), s, 1024), O::Value(_)));
+            let (a, b) = (threshold(plain), threshold(paren));
+            total.evaluations += 2;
+            total.states += 1;
+            if a != b {
+                total.violation(
+                    "C10/parentheses-change-tailstrict",
+                    format!("tailstrict {name} depth {d}: smallest sufficient limit {a:?} as written, {b:?} with redundant parentheses"),
+                    json!({"type":"recursion","shape":"tailstrict-parenthesised","depth":d,"limit":a.unwrap_or(0),"source":paren.replace('D', &d.to_string())}),
+                );
+            }
+        }
+    }
     // `tailstrict` on a call that is NOT in tail position only forces the arguments: the frame
     // threshold must be the one of the same program without the annotation
     for shape in shapes().iter().filter(|s| s.name.starts_with("tailstrict-call-")) {
